@@ -64,6 +64,21 @@ def scope_at(sc, path):
     return sc
 
 
+def all_decls(sc, acc=None):
+    """[(name, type)] of every declaration in the tree"""
+    acc = acc if acc is not None else []
+    for it in sc.items:
+        if it[0] == "decl":
+            acc.append((it[1], it[2]))
+        elif it[0] == "scope":
+            all_decls(it[1], acc)
+        elif it[0] == "if":
+            all_decls(it[1], acc)
+            if it[2] is not None:
+                all_decls(it[2], acc)
+    return acc
+
+
 def all_decl_names(sc, acc=None):
     acc = acc if acc is not None else []
     for it in sc.items:
@@ -176,7 +191,7 @@ def to_module(prog, types_of=None):
     def simple(it, env):
         if it[0] == "decl":
             _, name, ty, val = it
-            return Decl(ty, name, _lit(ty, val))
+            return Decl(ty, name, _lit(ty, val) if val is not None else None)
         ty = env.get(it[1], INT)
         if it[0] == "use":
             return ExprStmt(Assign("=", Var("acc", FLOAT), Bin("+", Bin("*", Var("acc", FLOAT), FloatLit(2.0), FLOAT),
@@ -368,3 +383,36 @@ def random_skeleton(rng, max_depth=3, max_items=4):
     for _, n in params[1:] + globals_:
         root.items.append(("use", n))
     return Program(root, params, globals_, globals_after=rng.random() < 0.3)
+
+
+def sibling_family():
+    """directed: a name re-used by two disjoint sibling scopes of every kind; the first scope ends with a store to it, the
+    second declares it without initialiser (same or another type) and reads it *first* in an expression.
+    (name, lang.Module) — export f(int p) -> float"""
+    from ..lang import mk_bin
+    out = []
+    p = Var("p", INT)
+
+    def wrap(kind, stmts, k):
+        if kind == "block":
+            return [Block(stmts)]
+        if kind == "if":
+            return [If(Bin("<", p, IntLit(100), INT), Block(stmts))]
+        if kind == "else":
+            return [If(Bin(">", p, IntLit(100), INT), Block([]), Block(stmts))]
+        if kind == "for":
+            return [For(Decl(INT, "i%d" % k, IntLit(0)), Bin("<", Var("i%d" % k, INT), IntLit(2), INT), Affix("++", True, Var("i%d" % k, INT)), Block(stmts))]
+        raise ValueError(kind)
+
+    for k1 in ("block", "if", "else", "for"):
+        for k2 in ("block", "if", "else", "for"):
+            for t1, t2 in ((INT, INT), (FLOAT, FLOAT), (INT, FLOAT), (FLOAT, INT)):
+                a1, a2 = Var("a", t1), Var("a", t2)
+                r = Var("r", FLOAT)
+                first = [Decl(t1, "a", mk_bin("+", p, IntLit(3)) if t1 == INT else mk_bin("+", p, FloatLit(3.5)))]
+                second = [Decl(t2, "a"), ExprStmt(Assign("=", r, mk_bin("+", a2, r))), ExprStmt(Assign("=", a2, mk_bin("+", a2, IntLit(1) if t2 == INT else FloatLit(1.0)))),
+                          ExprStmt(Assign("=", r, mk_bin("+", mk_bin("*", a2, FloatLit(10.0)), r)))]
+                body = [Decl(FLOAT, "r", FloatLit(0.25))] + wrap(k1, first, 1) + wrap(k2, second, 2) + [Return(r)]
+                f = Func("f", [(INT, "p")], FLOAT, Block(body), True)
+                out.append(("sibling:%s:%s:%s:%s" % (k1, k2, t1, t2), Module(funcs=[f])))
+    return out
